@@ -705,3 +705,106 @@ func (c *Ctx) caseSetOf(rel, method string) map[string]bool {
 	})
 	return out
 }
+
+// ---------------------------------------------------------------- NE1
+
+// RuleNE1: a result is used only after its error was found nil. For `v, err := f(...)`
+// with v of pointer or interface type and f outside the repository (standard library,
+// schema library: their contract is "v is meaningful only when err is nil"), every method
+// call or field access through v is reached only on paths on which `err == nil` was
+// established for that very assignment. `info.IsDir()` on the result of a failed os.Stat
+// dereferences nil: a panic where the library promises a diagnostic.
+func RuleNE1(c *Ctx) {
+	sc := c.Run.Begin("NE1", "for every `v, err := f(...)` with f outside the repository and v a pointer or interface, each use of v through a selector is dominated by err == nil for that assignment", 1)
+	defer sc.End()
+	n := 0
+	perFn := map[*ast.FuncDecl]int{}
+	c.P.Funcs(func(pk *pkgT, fd *ast.FuncDecl) {
+		info := pk.TypesInfo
+		ast.Inspect(fd.Body, func(x ast.Node) bool {
+			as, ok := x.(*ast.AssignStmt)
+			if !ok || len(as.Lhs) != 2 || len(as.Rhs) != 1 {
+				return true
+			}
+			call, ok := ast.Unparen(as.Rhs[0]).(*ast.CallExpr)
+			if !ok {
+				return true
+			}
+			g := Callee(info, call)
+			if g == nil || c.P.Decl(g) != nil {
+				return true // repository functions are judged by their own contracts (N2, B1 ...)
+			}
+			vid, ok1 := as.Lhs[0].(*ast.Ident)
+			eid, ok2 := as.Lhs[1].(*ast.Ident)
+			if !ok1 || !ok2 || vid.Name == "_" || eid.Name == "_" {
+				return true
+			}
+			vobj, eobj := info.ObjectOf(vid), info.ObjectOf(eid)
+			if vobj == nil || eobj == nil || !isErrorType(eobj.Type()) {
+				return true
+			}
+			switch vobj.Type().Underlying().(type) {
+			case *types.Pointer, *types.Interface:
+			default:
+				return true
+			}
+			body := innermostBody(fd, as)
+			cf := c.CFG(pk, body.body)
+			assigned := func(nd ast.Node, o types.Object) bool {
+				a2, ok := nd.(*ast.AssignStmt)
+				if !ok || a2 == as {
+					return false
+				}
+				for _, l := range a2.Lhs {
+					if id, ok := l.(*ast.Ident); ok && info.ObjectOf(id) == o {
+						return true
+					}
+				}
+				return false
+			}
+			gen := func(fa cfgx.Fact) bool {
+				be, ok := ast.Unparen(fa.Expr).(*ast.BinaryExpr)
+				if !ok || (be.Op != token.EQL && be.Op != token.NEQ) {
+					return false
+				}
+				l, r := be.X, be.Y
+				if isNilIdentExpr(info, l) {
+					l, r = r, l
+				}
+				id, ok := ast.Unparen(l).(*ast.Ident)
+				if !ok || info.ObjectOf(id) != eobj || !isNilIdentExpr(info, r) {
+					return false
+				}
+				return (be.Op == token.EQL) == fa.Truth
+			}
+			// uses of v through a selector after the assignment
+			ast.Inspect(body.body, func(y ast.Node) bool {
+				sel, ok := y.(*ast.SelectorExpr)
+				if !ok || sel.Pos() < as.End() {
+					return true
+				}
+				id, ok := ast.Unparen(sel.X).(*ast.Ident)
+				if !ok || info.ObjectOf(id) != vobj {
+					return true
+				}
+				// only uses this assignment reaches without v being reassigned
+				if !cf.MustAt(sel, nil, func(nd ast.Node) bool { return nd == ast.Node(as) }, func(nd ast.Node) bool { return assigned(nd, vobj) }) {
+					return true
+				}
+				n++
+				perFn[fd]++
+				key := fmt.Sprintf("%s:%s#%d", c.P.DeclName(fd), vid.Name, perFn[fd])
+				if cf.MustAt(sel, gen, nil, func(nd ast.Node) bool { return assigned(nd, eobj) || nd == ast.Node(as) }) {
+					sc.Holds(key, c.P.Pos(sel.Pos()), "used only where "+eid.Name+" == nil")
+				} else {
+					sc.Violation(key, c.P.Pos(sel.Pos()), fmt.Sprintf("%s (a result of %s.%s) is used through %s on a path on which %s was not found nil: when the call fails the value is nil and the library panics instead of returning a diagnostic", vid.Name, g.Pkg().Name(), g.Name(), types.ExprString(sel), eid.Name))
+				}
+				return true
+			})
+			return true
+		})
+	})
+	if n == 0 {
+		sc.Undecided("sites", "-", "no use of a (value, error) result of an outside function found")
+	}
+}
